@@ -54,6 +54,13 @@ func Run(o *drv.Out) {
 	for ci := 0; ci < nCases; ci++ {
 		execdrv.Guard(o, func() { failedTxCase(o, ci, nHeights) })
 	}
+	indexVariants := 3
+	if o.Tier == "thorough" || o.Search {
+		indexVariants = 10
+	}
+	for v := 0; v <= indexVariants; v++ {
+		execdrv.Guard(o, func() { indexWritingCase(o, v) })
+	}
 	execdrv.Guard(o, func() { slashThenFailCase(o) })
 	execdrv.Guard(o, func() { paramCacheCases(o) })
 	nRej := 3
@@ -301,6 +308,195 @@ func failedTxCase(o *drv.Out, ci, nHeights int) {
 	}
 }
 
+// indexWritingCase: transactions whose handlers write to the INDEXER (the property names state,
+// events, indexes and in-memory trackers): certificate results of a nested chain carrying a
+// checkpoint and double-sign evidence (HandleCheckpoint -> IndexCheckpoint, HandleDoubleSigners ->
+// IndexDoubleSigner) and the governance change cons.resetCommittee (DeleteCheckpointsForChain).
+// After every block the index content reachable through the public read API (all checkpoints and the
+// most recent one per chain, every indexed double signer) on the node that executed the block through
+// ApplyTransactions (per-transaction nested stores) must equal the content a plain reference reaches
+// by running the handlers of exactly the block's transactions, in order, directly on an un-nested
+// working state machine of a node with the same prefix.
+//
+//	h2: certificate results of chain 2 (nested height 1): checkpoint (100, hash), evidence {validator 0, height 1}
+//	h3: certificate results (nested height 2): checkpoint (200, hash'); a second certificate (nested
+//	    height 3) replaying the SAME evidence -> must fail and not be in the block
+//	h4: changeParameter cons.resetCommittee = 2 -> the checkpoints of chain 2 are gone
+//
+// variant > 0: the same comparison on generated blocks: every height carries 1-3 index-writing
+// transactions drawn from {checkpoint (fresh or stale height), evidence (fresh or replayed), checkpoint
+// and evidence, resetCommittee}; no expectation on which of them succeed.
+func indexWritingCase(o *drv.Out, variant int) {
+	name := "index-writing-transactions"
+	if variant > 0 {
+		name = fmt.Sprintf("index-writing-transactions~r%d", variant)
+	}
+	o.Case(name)
+	rng := rand.New(rand.NewSource(57 + int64(variant)*7919 + o.Seed*104729))
+	const nested = node.ChainId + 1
+	net := node.NewNetwork(23, 4, nil, 12, node.Options{ProposalVoteWindow: true, MutateGenesis: func(g *fsm.GenesisState) {
+		for _, v := range g.Validators {
+			v.Committees = []uint64{node.ChainId, nested}
+		}
+		g.Pools = append(g.Pools, &fsm.Pool{Id: nested, Amount: 1})
+	}})
+	defer net.Close()
+	c := execdrv.NewChain(o, net, rng, []int{16, 2})
+	c.CanonErrors = true
+	A, B, Ref := c.NewNode("A", 0), c.NewNode("B", 1), c.NewNode("Ref", -1)
+	rewards := func() *lib.RewardRecipients {
+		return &lib.RewardRecipients{PaymentPercents: []*lib.PaymentPercents{{Address: net.FreshAddr(1), Percent: 100, ChainId: nested}}}
+	}
+	evidence := &lib.SlashRecipients{DoubleSigners: []*lib.DoubleSigner{{Id: net.ValKeys[0].PublicKey().Bytes(), Heights: []uint64{1}}}}
+	probeHeights := []uint64{99, 101}
+	cp := func(height uint64) *lib.Checkpoint {
+		probeHeights = append(probeHeights, height)
+		return &lib.Checkpoint{Height: height, BlockHash: net.FreshAddr(int(height))}
+	}
+	var valAddrs [][]byte
+	for _, k := range net.ValKeys {
+		valAddrs = append(valAddrs, k.PublicKey().Address().Bytes())
+	}
+	// point reads see the pending writes of the un-nested reference too (its iterators do not)
+	points := func(nd *node.Node) []string {
+		return nd.IndexPoints([]uint64{node.ChainId, nested}, probeHeights, valAddrs, []uint64{1, 2, 3, 4, 5, 6, 7, 8})
+	}
+	nestedHeight, nextCp, usedEvidence := uint64(0), uint64(100), [][2]int{}
+	generated := func(h uint64) (txs [][]byte) {
+		for k := 1 + rng.Intn(3); k > 0; k-- {
+			res := &lib.CertificateResult{RewardRecipients: rewards()}
+			action := rng.Intn(6)
+			if action == 5 && h > 2 {
+				gov := net.ChangeParamTx(net.AcctKeys[1+rng.Intn(3)], fsm.ParamSpaceCons, fsm.ParamResetCommittee, nested, h, h+5, minFee, h)
+				net.ApproveProposals(gov)
+				txs = append(txs, gov)
+				continue
+			}
+			if action == 0 || action == 2 || action == 5 { // fresh checkpoint
+				res.Checkpoint = cp(nextCp)
+				nextCp += uint64(1 + rng.Intn(100))
+			}
+			if action == 1 { // stale or repeated checkpoint height
+				res.Checkpoint = cp(nextCp - uint64(1+rng.Intn(100)))
+			}
+			if action == 2 || action == 3 { // fresh evidence
+				ev := [2]int{rng.Intn(len(net.ValKeys)), 1 + rng.Intn(int(h)-1)}
+				usedEvidence = append(usedEvidence, ev)
+				res.SlashRecipients = &lib.SlashRecipients{DoubleSigners: []*lib.DoubleSigner{{Id: net.ValKeys[ev[0]].PublicKey().Bytes(), Heights: []uint64{uint64(ev[1])}}}}
+			}
+			if action == 4 && len(usedEvidence) > 0 { // replayed evidence
+				ev := usedEvidence[rng.Intn(len(usedEvidence))]
+				res.SlashRecipients = &lib.SlashRecipients{DoubleSigners: []*lib.DoubleSigner{{Id: net.ValKeys[ev[0]].PublicKey().Bytes(), Heights: []uint64{uint64(ev[1])}}}}
+			}
+			nestedHeight++
+			txs = append(txs, net.CertificateResultsTx(A, nested, nestedHeight, h-1, 0, []int{0, 1, 2, 3}, res, h))
+		}
+		return
+	}
+	heights := 4
+	if variant > 0 {
+		heights = 6
+	}
+	for hi := 0; hi < heights; hi++ {
+		h := A.Height()
+		txs := [][]byte{net.SendTx(net.AcctKeys[hi], net.FreshAddr(500+hi), 1000, minFee, h, "")}
+		wantIncluded, wantDropped := 1, 0
+		if variant > 0 && hi > 0 {
+			txs = append(txs, generated(h)...)
+		}
+		switch hi + 100*variant {
+		case 1:
+			txs = append(txs, net.CertificateResultsTx(A, nested, 1, h-1, 0, []int{0, 1, 2, 3},
+				&lib.CertificateResult{RewardRecipients: rewards(), SlashRecipients: evidence, Checkpoint: cp(100)}, h))
+			wantIncluded = 2
+		case 2:
+			txs = append(txs, net.CertificateResultsTx(A, nested, 2, h-1, 0, []int{0, 1, 2, 3},
+				&lib.CertificateResult{RewardRecipients: rewards(), Checkpoint: cp(200)}, h))
+			txs = append(txs, net.CertificateResultsTx(A, nested, 3, h-1, 0, []int{0, 1, 2, 3},
+				&lib.CertificateResult{RewardRecipients: rewards(), SlashRecipients: evidence}, h))
+			wantIncluded, wantDropped = 2, 1
+		case 3:
+			gov := net.ChangeParamTx(net.AcctKeys[1], fsm.ParamSpaceCons, fsm.ParamResetCommittee, nested, h, h+5, minFee, h)
+			net.ApproveProposals(gov)
+			txs = append(txs, gov)
+			wantIncluded = 2
+		}
+		for _, tx := range txs {
+			if err := A.Submit(tx); err != nil {
+				panic(err)
+			}
+		}
+		pre := A.StateDigest()
+		p, ok := c.Propose(A, nil, "produce")
+		if !ok {
+			return
+		}
+		blk := cloneBlock(p.Block)
+		// the plain reference: handlers of exactly the block's transactions on an un-nested working state
+		var refIndex []string
+		failedAt, rerr := Ref.ApplyUnnested(blk.Transactions, func() { refIndex = points(Ref) })
+		c.Hold = true
+		okA := c.Validate(A, p)
+		if okA {
+			c.Commit(A, p, false)
+		}
+		o.Op(fmt.Sprintf("def %d %s %s %s %s", h, pre, p.ID, A.StateDigest(), p.Obs), "def")
+		c.Release()
+		if !okA {
+			o.Fail("C07:failed-tx-left-trace", fmt.Sprintf("height %d: the proposer rejects its own block", h), map[string]any{"case": o.CurCase(), "block": hex.EncodeToString(p.Block)})
+			return
+		}
+		okB := c.Validate(B, p)
+		if okB {
+			c.Commit(B, p, false)
+		}
+		c.Commit(Ref, p, false)
+		gotIndex, listed := points(A), A.IndexDump(node.ChainId, nested)
+		o.Count("index-compared")
+		var diff []string
+		if rerr != nil {
+			diff = append(diff, fmt.Sprintf("the plain reference rejects transaction %d of the block (%s) which the block execution accepted", failedAt, node.ErrCode(rerr)))
+		} else if strings.Join(gotIndex, "\n") != strings.Join(refIndex, "\n") {
+			diff = append(diff, fmt.Sprintf("index after the block: %v; index after the handlers of its %d transactions on an un-nested store: %v", gotIndex, len(blk.Transactions), refIndex))
+		}
+		if bIndex := points(B); okB && strings.Join(bIndex, "\n") != strings.Join(gotIndex, "\n") {
+			diff = append(diff, fmt.Sprintf("proposer's and replica's index differ: %v vs %v", gotIndex, bIndex))
+		}
+		// the committed index as its iterators list it (all checkpoints, all double signers) is the same content
+		var listedCore []string
+		for _, l := range listed {
+			if !strings.HasPrefix(l, "most-recent-checkpoint") {
+				listedCore = append(listedCore, l)
+			}
+		}
+		if strings.Join(listedCore, "\n") != strings.Join(gotIndex, "\n") {
+			diff = append(diff, fmt.Sprintf("committed index by point reads %v, by iteration %v", gotIndex, listedCore))
+		}
+		if len(diff) != 0 {
+			o.Fail("C07:successful-tx-partially-applied:index",
+				fmt.Sprintf("height %d: the index writes of the block's successful transactions are not what their sequential application gives: %s", h, strings.Join(diff, "; ")),
+				map[string]any{"case": o.CurCase(), "height": h, "block": hex.EncodeToString(p.Block), "index_after_block": gotIndex, "index_listed_after_block": listed, "index_of_plain_reference": refIndex})
+			return
+		}
+		if variant > 0 {
+			o.Count(fmt.Sprintf("generated-index-block:included=%d/dropped=%d", len(blk.Transactions)-1, len(txs)-len(blk.Transactions)))
+			if len(gotIndex) != 0 {
+				o.Nontrivial(fmt.Sprintf("%s|%d", o.CurCase(), hi))
+			}
+			continue
+		}
+		if len(blk.Transactions) != wantIncluded || len(txs)-len(blk.Transactions) != wantDropped || !okB {
+			o.Fail("C07:scenario-expectation-differs:index-writing-transactions",
+				fmt.Sprintf("height %d: expected %d transactions included and %d dropped (replayed evidence), the block has %d of %d; replica accepts: %v", h, wantIncluded, wantDropped, len(blk.Transactions), len(txs), okB),
+				map[string]any{"case": o.CurCase(), "height": h, "block": hex.EncodeToString(p.Block), "index_after_block": gotIndex})
+			return
+		}
+		o.Count(fmt.Sprintf("index-entries-after-h%d:%d", h, len(gotIndex)))
+		o.Nontrivial(fmt.Sprintf("%s|%d", o.CurCase(), hi))
+	}
+	o.Sample("index-writing-transactions: checkpoints and double-signer index after each block == handlers of its transactions on an un-nested store; replayed evidence rejected; resetCommittee prunes the checkpoints")
+}
+
 // slashThenFailCase: a transaction that changes the in-memory slash tracker and THEN fails.
 //
 // Root chain with protocol version 2 (committee-scoped slashing, per-block slash tracker), four
@@ -384,7 +580,7 @@ func slashThenFailCase(o *drv.Out) {
 		}
 		p := all(txs)
 		if p == nil || (h == 3 && p.NTx != 2) {
-			o.Fail("C07:harness:slash-scenario-not-reached", fmt.Sprintf("prefix height %d did not include what it should", h), map[string]any{"case": o.CurCase()})
+			o.Fail("C07:scenario-expectation-differs:slash-then-fail", fmt.Sprintf("prefix height %d did not include what it should", h), map[string]any{"case": o.CurCase()})
 			return
 		}
 	}
@@ -417,7 +613,7 @@ func slashThenFailCase(o *drv.Out) {
 		return false
 	}
 	if len(blk.Transactions) != 2 || has(tx1) || !has(tx2) {
-		o.Fail("C07:harness:slash-scenario-not-reached", fmt.Sprintf("height %d: expected a1 and tx2 included and tx1 failing; block has %d txs, tx1 included=%v, tx2 included=%v", h, len(blk.Transactions), has(tx1), has(tx2)),
+		o.Fail("C07:scenario-expectation-differs:slash-then-fail", fmt.Sprintf("height %d: expected a1 and tx2 included and tx1 failing; block has %d txs, tx1 included=%v, tx2 included=%v", h, len(blk.Transactions), has(tx1), has(tx2)),
 			map[string]any{"case": o.CurCase()})
 		return
 	}
@@ -481,7 +677,7 @@ func slashThenFailCase(o *drv.Out) {
 		return
 	}
 	if sAlone >= before {
-		o.Fail("C07:harness:slash-scenario-not-reached", fmt.Sprintf("validator 3 was not slashed by the window settlement (stake %d -> %d)", before, sAlone), map[string]any{"case": o.CurCase()})
+		o.Fail("C07:scenario-expectation-differs:slash-then-fail", fmt.Sprintf("validator 3 was not slashed by the window settlement (stake %d -> %d)", before, sAlone), map[string]any{"case": o.CurCase()})
 		return
 	}
 	o.Nontrivial(o.CurCase())
@@ -550,12 +746,12 @@ func paramCacheCase(o *drv.Out, v execdrv.ParamVariant, val int, seed int64) {
 	blk := cloneBlock(p.Block)
 	for _, tx := range blk.Transactions {
 		if bytes.Equal(tx, gov) {
-			o.Fail("C07:harness:param-scenario-not-reached", "the governance transaction was included in the block (it should fail after the edit, or be in the remainder)", map[string]any{"case": o.CurCase()})
+			o.Fail("C07:scenario-expectation-differs:param-change", "the governance transaction was included in the block (it should fail after the edit, or be in the remainder)", map[string]any{"case": o.CurCase()})
 			return
 		}
 	}
 	if !v.Remainder && len(blk.Transactions) != len(txs)-1 {
-		o.Fail("C07:harness:param-scenario-not-reached", fmt.Sprintf("expected every transaction but the governance one in the block: %d of %d", len(blk.Transactions), len(txs)), map[string]any{"case": o.CurCase()})
+		o.Fail("C07:scenario-expectation-differs:param-change", fmt.Sprintf("expected every transaction but the governance one in the block: %d of %d", len(blk.Transactions), len(txs)), map[string]any{"case": o.CurCase()})
 		return
 	}
 	c.Hold = true
